@@ -133,6 +133,21 @@ class Describer:
             return f'expr:{norm(e)}'
         if isinstance(e, ast.UnaryOp) and isinstance(e.op, ast.USub) and isinstance(e.operand, ast.Constant):
             return f'const:{-e.operand.value!r}'
+        if isinstance(e, ast.UnaryOp) and isinstance(e.op, ast.Not):
+            return f'not ({self._cond(e.operand, at, depth, row)})'
+        if isinstance(e, (ast.ListComp, ast.SetComp, ast.GeneratorExp, ast.DictComp)) and depth < 6:
+            from .rowshape import Row
+            r2 = Row(elts=[], gens=(list(row.gens) if row is not None else []) + [(g.target, g.iter) for g in e.generators], node=e)
+            overs = [self.describe(g.iter, g.iter, depth + 1, r2) for g in e.generators]
+            conds = [self._cond(c, c, depth, r2) for g in e.generators for c in g.ifs]
+            if isinstance(e, ast.DictComp):
+                body = f'{self.describe(e.key, e.key, depth + 1, r2)}: {self.describe(e.value, e.value, depth + 1, r2)}'
+            else:
+                body = self.describe(e.elt, e.elt, depth + 1, r2)
+            kind = {ast.ListComp: 'list', ast.SetComp: 'set', ast.GeneratorExp: 'gen', ast.DictComp: 'dict'}[type(e)]
+            return f'{kind}[{body} over {" , ".join(overs)}' + (f' if {" and ".join(conds)}' if conds else '') + ']'
+        if isinstance(e, (ast.List, ast.Tuple)) and depth < 6:
+            return '[' + ', '.join(self.describe(x, x, depth + 1, row) for x in e.elts) + ']'
         if isinstance(e, ast.IfExp):
             return (f'({self.describe(e.body, at, depth + 1, row)} if {self._cond(e.test, at, depth, row)} '
                     f'else {self.describe(e.orelse, at, depth + 1, row)})')
@@ -148,6 +163,8 @@ class Describer:
         if isinstance(t, ast.BoolOp):
             op = ' and ' if isinstance(t.op, ast.And) else ' or '
             return op.join(self._cond(v, at, depth, row) for v in t.values)
+        if isinstance(t, ast.UnaryOp) and isinstance(t.op, ast.Not):
+            return f'not ({self._cond(t.operand, at, depth, row)})'
         if isinstance(t, ast.Call) and isinstance(t.func, ast.Name) and t.func.id == '_is_external' and t.args:
             return f'external({self.describe(t.args[0], at, depth + 1, row)})'
         return self.describe(t, at, depth + 1, row)
